@@ -227,10 +227,6 @@ type raftRun struct {
 	queue   []Block        // commit events read from Commit() and not yet executed
 	blocks  map[uint64]Block
 	pending []Block // proposals handed to raft and neither appended nor dropped
-	evbuf   []Block
-	evmu    sync.Mutex
-	drainWG sync.WaitGroup
-	stopDr  chan struct{}
 }
 
 func writeOrderToml(dir string, h History) error {
@@ -311,25 +307,6 @@ func (r *raftRun) open() error {
 		r.fake = newFake()
 		r.node.VerifStartWith(r.fake, 3600*time.Second)
 	}
-	r.stopDr = make(chan struct{})
-	r.drainWG.Add(1)
-	go func(n *etcdraft.Node, stop chan struct{}) {
-		defer r.drainWG.Done()
-		for {
-			select {
-			case ev := <-n.Commit():
-				if ev == nil {
-					continue
-				}
-				b := toBlock(ev.Block.BlockHeader.Number, ev.Block.Transactions)
-				r.evmu.Lock()
-				r.evbuf = append(r.evbuf, b)
-				r.evmu.Unlock()
-			case <-stop:
-				return
-			}
-		}
-	}(r.node, r.stopDr)
 	return nil
 }
 
@@ -339,20 +316,19 @@ func (r *raftRun) sync() {
 }
 
 func (r *raftRun) takeEvents() []Block {
-	// events are pushed by the loop before the sync point; give the drainer a moment to move them
-	for i := 0; i < 200; i++ {
-		if len(r.node.Commit()) == 0 {
-			break
+	// the loop pushes commit events before the sync point of every op, so they are all in the
+	// channel by now (capacity 1024); read them without waiting
+	ev := []Block{}
+	for {
+		select {
+		case e := <-r.node.Commit():
+			if e != nil {
+				ev = append(ev, toBlock(e.Block.BlockHeader.Number, e.Block.Transactions))
+			}
+			continue
+		default:
 		}
-		time.Sleep(50 * time.Microsecond)
-	}
-	time.Sleep(100 * time.Microsecond)
-	r.evmu.Lock()
-	ev := r.evbuf
-	r.evbuf = nil
-	r.evmu.Unlock()
-	if ev == nil {
-		ev = []Block{}
+		break
 	}
 	r.queue = append(r.queue, ev...)
 	return ev
@@ -395,10 +371,7 @@ func (r *raftRun) shutdown() {
 	} else {
 		time.Sleep(30 * time.Millisecond)
 	}
-	close(r.stopDr)
-	r.drainWG.Wait()
 	r.node.VerifCloseStorage()
-	r.evbuf = nil
 	r.queue = nil
 }
 
@@ -495,8 +468,12 @@ func (r *raftRun) step(op []interface{}) (Step, error) {
 			r.blocks[b.H] = b
 			st.R = []uint64{1, b.H}
 		}
-	case "report": // ["report", h]  ReportState for an executed height
-		h := num(op[1])
+	case "report": // ["report", back]  ReportState for the executed height chain-back
+		h := uint64(0)
+		if num(op[1]) <= r.chain {
+			h = r.chain - num(op[1])
+		}
+		st.R = []uint64{h}
 		hashes := []*types.Hash{}
 		if b, ok := r.blocks[h]; ok {
 			for _, id := range b.Txs {
@@ -531,10 +508,14 @@ func (r *raftRun) step(op []interface{}) (Step, error) {
 		}
 		r.sync()
 	case "propose": // raftreal only: ["propose", h, [txs]] through the node's proposal channel
+		before := r.node.VerifReadState().RamLast
 		ok := r.node.VerifPropose(mkBatch(num(op[1]), nums(op[2])))
 		st.R = []uint64{0}
 		if !ok {
 			st.R = []uint64{2}
+		}
+		for i := 0; ok && i < 2000 && r.node.VerifReadState().RamLast == before; i++ {
+			time.Sleep(time.Millisecond)
 		}
 		r.settle()
 	case "wait":
@@ -698,24 +679,18 @@ func (r *soloRun) step(op []interface{}) (Step, error) {
 	case "tx": // ["tx", id, expectBlock]
 		id, expect := num(op[1]), int(num(op[2]))
 		tx := mkTx(id)
+		before := r.node.VerifPool().Hashes
 		if err := r.node.Prepare(tx); err != nil {
 			st.R = []uint64{2}
 			break
 		}
 		st.R = []uint64{0}
-		if r.dead {
-			// the proposal goroutine is gone: nothing can be observed through the loop any more
-			time.Sleep(20 * time.Millisecond)
-			break
-		}
-		// wait until the pool has seen it (or clearly refuses it)
-		for i := 0; i < 2000; i++ {
-			d := r.node.VerifPool()
-			_ = d
-			if r.node.GetPendingTxByHash(tx.GetHash()) != nil {
+		// wait until the pool has taken it (or clearly does not)
+		for i := 0; i < 3000; i++ {
+			if r.node.VerifPool().Hashes != before {
 				break
 			}
-			if i > 100 && expect == 0 {
+			if i > 150 && expect == 0 {
 				break
 			}
 			time.Sleep(100 * time.Microsecond)
@@ -725,6 +700,12 @@ func (r *soloRun) step(op []interface{}) (Step, error) {
 			w = 2 * time.Second
 		}
 		st.Ev = r.events(expect, w)
+		if !r.dead && len(st.Ev) == 0 && r.node.VerifPool().Hashes != before {
+			// a batch was generated and nothing came out: see whether the proposal goroutine is still there
+			if !r.probe() {
+				r.dead = true
+			}
+		}
 	case "prop": // ["prop", h, [txs]]  a batch with a chosen height on the node's proposal channel
 		ok := r.node.VerifPropose(mkBatch(num(op[1]), nums(op[2])), 300*time.Millisecond)
 		if !ok {
@@ -749,18 +730,28 @@ func (r *soloRun) step(op []interface{}) (Step, error) {
 			r.blocks[b.H] = b
 			st.R = []uint64{1, b.H}
 		}
-	case "report": // ["report", h] -> R = for every tx of block h: 1 if the pool still returns it
-		h := num(op[1])
+	case "report": // ["report", back] -> R = [h, taken(0)/blocked(2)]
+		h := uint64(0)
+		if num(op[1]) <= r.chain {
+			h = r.chain - num(op[1])
+		}
 		hashes := []*types.Hash{}
 		b := r.blocks[h]
 		for _, id := range b.Txs {
 			hashes = append(hashes, mkTx(id).GetHash())
 		}
-		r.node.ReportState(h, &types.Hash{}, hashes)
-		r.node.ReportState(1, &types.Hash{}, nil) // second send returns once the first has been handled
-		st.R = []uint64{}
-		d := r.node.VerifPool()
-		st.R = append(st.R, uint64(d.Batched), uint64(d.Hashes))
+		done := make(chan struct{})
+		go func() {
+			r.node.ReportState(h, &types.Hash{}, hashes)
+			r.node.ReportState(1, &types.Hash{}, nil) // second send returns once the first has been handled
+			close(done)
+		}()
+		select {
+		case <-done:
+			st.R = []uint64{h, 0}
+		case <-time.After(200 * time.Millisecond):
+			st.R = []uint64{h, 2} // the main loop is blocked on proposeC
+		}
 	case "crash":
 		r.node.Stop()
 		time.Sleep(2 * time.Millisecond)
@@ -775,7 +766,8 @@ func (r *soloRun) step(op []interface{}) (Step, error) {
 	if r.dead {
 		dead = 1
 	}
-	st.St = []uint64{r.node.VerifLastExec(), dead, r.node.VerifPool().SeqNo}
+	pd := r.node.VerifPool()
+	st.St = []uint64{r.node.VerifLastExec(), dead, pd.SeqNo, uint64(pd.Hashes)}
 	return st, nil
 }
 
@@ -811,7 +803,7 @@ func runSolo(h History) Trace {
 		tr.Err = "open: " + err.Error()
 		return tr
 	}
-	tr.Steps = append(tr.Steps, Step{Ev: []Block{}, St: []uint64{r.node.VerifLastExec(), 0, r.node.VerifPool().SeqNo}})
+	tr.Steps = append(tr.Steps, Step{Ev: []Block{}, St: []uint64{r.node.VerifLastExec(), 0, r.node.VerifPool().SeqNo, 0}})
 	for _, op := range h.Ops {
 		st, err := r.step(op)
 		if err != nil {
@@ -845,7 +837,22 @@ func runOne(line []byte) (interface{}, error) {
 func main() {
 	wal.SegmentSizeBytes = 1 << 20
 	cmds := map[string]func(args []string) error{}
-	cmds["worker"] = func(args []string) error { return hx.Lines(runOne) }
+	cmds["worker"] = func(args []string) error {
+		return hx.Lines(func(line []byte) (interface{}, error) {
+			type res struct {
+				v interface{}
+				e error
+			}
+			c := make(chan res, 1)
+			go func() { v, e := runOne(line); c <- res{v, e} }()
+			select {
+			case x := <-c:
+				return x.v, x.e
+			case <-time.After(60 * time.Second):
+				return Trace{Steps: []Step{}, Err: "timeout: history did not finish"}, nil
+			}
+		})
+	}
 	// "order": shard the input lines over worker processes (the raft package keeps process-wide state)
 	cmds["order"] = func(args []string) error {
 		W := 8
